@@ -35,6 +35,7 @@ Proof. intros prev es m m' [_ H]. exact H. Qed.
 Theorem C04_success_prev_matched : forall P s fs a s' r tr fs',
   append_entries P s fs a = Done s' r tr fs' -> ar_success r = true -> 0 < aq_prevIdx a ->
   (aq_prevIdx a = fst (last_entry s) /\ aq_prevTerm a = snd (last_entry s)) \/
+  (aq_prevIdx a = v_lastSnapIdx s /\ aq_prevTerm a = v_lastSnapTerm s) \/
   (exists pe, d_log s !! aq_prevIdx a = Some pe /\ e_term pe = aq_prevTerm a).
 Proof. exact append_success_prev. Qed.
 Print Assumptions C04_success_prev_matched.
